@@ -277,8 +277,52 @@ theorem shapeE : (e : Expr) → ∀ (benv : BEnv) (t : VTy) (bs : List Bool) (p 
   | .struct _ _, _, _, _, _, _, h => by simp [bitExpr] at h
   | .field _ _, _, _, _, _, _, h => by simp [bitExpr] at h
   | .enumLit _ _ _ _, _, _, _, _, _, h => by simp [bitExpr] at h
-  | .match_ _ _, _, _, _, _, _, h => by simp [bitExpr] at h
+  | .match_ scrut arms, benv, t, bs, p, benv', h => by
+    simp only [bitExpr] at h
+    split at h
+    · rename_i ts sb ps env1 hs
+      split at h
+      · split at h
+        · rename_i hp t' bs' pa envF ha
+          simp only [Option.some.injEq, Prod.mk.injEq] at h; obtain ⟨_, _, _, rfl⟩ := h
+          rw [shapeArms arms env1 ts sb _ _ ha rfl, shapeE scrut _ _ _ _ _ hs]
+        · simp at h
+      · simp at h
+    · simp at h
   | .call _ _, _, _, _, _, _, h => by simp [bitExpr] at h
+theorem shapeArms : (arms : Arms) → ∀ (benv1 : BEnv) (ts : STy) (sb : List Bool) (st st' : ArmSt),
+    bitArms benv1 ts sb arms st = some st' → shape st.2.2.2 = shape benv1 → shape st'.2.2.2 = shape benv1
+  | .nil, benv1, ts, sb, st, st', h, hs => by
+    simp only [bitArms, Option.some.injEq] at h; subst h; exact hs
+  | .cons p e rest, benv1, ts, sb, (hasPrev, ret, pacc, envAcc), st', h, hs => by
+    simp only [bitArms] at h
+    split at h
+    · simp at h
+    · rename_i m bind hpb
+      split at h
+      · simp at h
+      · rename_i te be pe enve he
+        have hse := shapeE e _ _ _ _ _ he
+        -- the arm's variables without the pattern binding
+        have hout : shape (armOut bind enve) = shape benv1 := by
+          cases bind with
+          | none => simpa [armOut, armEnv] using hse
+          | some x =>
+            simp only [armEnv] at hse
+            simp only [armOut]
+            cases enve with
+            | nil => simp [shape] at hse
+            | cons hd tl =>
+              obtain ⟨n', t', b'⟩ := hd
+              simp only [shape_cons, List.cons.injEq] at hse
+              simpa using hse.2
+        have hmux : shape (muxEnv (!hasPrev && m) (armOut bind enve) envAcc) = shape benv1 := by
+          rw [shape_muxEnv _ _ _ (by rw [hout]; exact hs.symm), hout]
+        split at h
+        · split at h
+          · exact shapeArms rest benv1 ts sb _ st' h hmux
+          · simp at h
+        · exact shapeArms rest benv1 ts sb _ st' h hmux
 theorem shapeSS : (ss : StmtList) → ∀ (benv : BEnv) (t : VTy) (bs : List Bool) (p : P) (benv' : BEnv),
     bitStmts benv ss = some (t, bs, p, benv') → ∃ pre, shape benv' = pre ++ shape benv
   | .nil, benv, t, bs, p, benv', h => by
